@@ -167,6 +167,19 @@ def py_tokens(text):
 
 
 class C05(Property):
+    fuzz_target = 'fuzz_tokens'
+
+    def fuzz_seeds(self):
+        # raw-mode inputs (first byte has bit 7 set): mode selector, offset selector, then the text
+        from ..gen.invalid import FAMILIES
+        texts = ['x = 1\n', 'def f(a, *b, c=1, **d):\n    return a\n', 'match x:\n    case [1, *r] if r: pass\n', 'class C(B, k=1):\n  @d\n  async def f(self): await x\n',
+                 "f'{x!r:>{w}}' 'a' b'c'\n", 'try:\n  pass\nexcept* E as e:\n  raise\nfinally:\n  pass\n', 'with (a as b, c): pass\n', 'type X[T] = list[T]\n', 'x = [i for i in y if i]\n',
+                 'lambda *a, k=1: (yield)\n', 'if x:\n\ty\nelse:\n\tz\n', '\ufeffx = "\\N{DIGIT ONE}"\r\n']
+        texts += [FAMILIES[n](12) for n in sorted(FAMILIES)]
+        out = []
+        for i, t in enumerate(texts):
+            out.append(bytes([0x80 | (i % 3), i % 6]) + t.encode('utf-8'))
+        return out
     id = 'C05'
     configs = ('B', 'C')
     bytes_per_case = 1024
